@@ -157,6 +157,8 @@ def gen_rows(rng, npri, thorough):
         else:
             w = abs(rand_float(rng))
         rows.append({"p": [hx(x) for x in p], "ll": hx(ll), "lp": hx(lp), "w": hx(w)})
+    if n == 1:
+        rows[0]["w"] = hx(1.0)          # a one-sample result always carries the whole weight
     if mode < 0.6:
         tot = sum(unhex(r["w"]) for r in rows) or 1.0
         for r in rows:
@@ -214,6 +216,14 @@ def shape_labels(c):
         labels.append("shared")
     if has_kind(c["tree"], "tuple"):
         labels.append("tuple")
+    first = []
+    for _, pid in ws:
+        if pid not in first:
+            first.append(pid)
+    if first != sorted(first):
+        labels.append("creation-order-differs")
+    if any(unhex(x) == 0.0 for row in c.get("rows", []) for x in row["p"]):
+        labels.append("zero-value")
     return labels
 
 
@@ -226,6 +236,10 @@ def failure_classes(c, route):
         out.append("reserved-name:table")
     if "mixed-depth" in labels and fam == "text":
         out.append("mixed-depth:text")
+    if "zero-value" in labels and route in ("summary", "summary_agg"):
+        out.append("zero-value:summary")
+    if "creation-order-differs" in labels and route == "summary_agg":
+        out.append("recreated-order:summary_agg")
     if c.get("kind") == "dbseq":
         out.append("db-resave-after-commit")
     return out
@@ -386,7 +400,7 @@ def oracle_samples(c, r):
             if m:
                 fails.append((route, m))
     if "load" in r.get("summary_orig", {}):
-        fails.append(("summary", "samples.summary() raised %s" % exc_of(r["summary_orig"], "load")))
+        pass        # the fit itself could not summarise these samples (numpy quantile on degenerate weights): nothing persisted
     elif "exc" in r.get("summary_save", {}):
         fails.append(("summary", "save_samples_summary raised %s" % exc_of(r, "summary_save")))
     else:
@@ -413,13 +427,13 @@ def oracle_samples(c, r):
             k = first_argmax([unhex(x["ll"]) for x in rows])
             if k not in r["min_idx"]:
                 fails.append(("db", "minimise drops the maximum-likelihood sample"))
-            a, b = ok(got, "samples"), ok(mo, "samples")
-            if a is None or b is None or sorted(map(json.dumps, a)) != sorted(map(json.dumps, b)):
-                fails.append(("db", "db_min: loaded samples differ from the minimised samples: %s vs %s" % (a, b)))
-            elif by_col(got, "best") != by_col(orig, "best") or ok(got, "inst") != ok(orig, "inst"):
+            # the persisted list is list({best, best-posterior}); the same two objects give the same set order again
+            m = compare_view(mo, got, "db_min", stats=False)
+            if m:
+                fails.append(("db", m))
+            lls = [unhex(x["ll"]) for x in rows]
+            if lls.count(max(lls)) == 1 and by_col(got, "best") != by_col(orig, "best"):
                 fails.append(("db", "db_min: best fit differs from the fit's best fit"))
-            elif ok(got, "info") != ok(mo, "info"):
-                fails.append(("db", "db_min: samples_info differs"))
     return fails
 
 
